@@ -143,6 +143,64 @@ M = [
  ("R18", "snapshot re-validation deleted", [("log_writer.go", "	if len(rs.SurviveOffsets)+len(rs.DeletedMessages) != w.index.Len() {\n		// the number of messages changed, nothing to drop\n		if err := rs.Remove(); err != nil {\n			return nil, nil, err\n		}\n		return nil, nil, errSegmentChanged\n	}\n", "")]),
  ("R20", "old head closed before the swap", [("log.go", "		l.readersMu.Lock()\n\n		l.readers[len(l.readers)-1] = oldReader\n		l.writer = newWriter\n		l.readers = append(l.readers, newWriter.reader)\n\n		l.readersMu.Unlock()\n\n		if err := oldWriter.Close(); err != nil {\n			return OffsetInvalid, err\n		}", "		if err := oldWriter.Close(); err != nil {\n			return OffsetInvalid, err\n		}\n\n		l.readersMu.Lock()\n\n		l.readers[len(l.readers)-1] = oldReader\n		l.writer = newWriter\n		l.readers = append(l.readers, newWriter.reader)\n\n		l.readersMu.Unlock()\n")]),
  ("R21", "unbounded rewrite of the head", [("log.go", "rs, err := rdr.segment.RewriteLimit(writerSize, offsets, l.params, mversion, iversion)", "_ = writerSize\n	rs, err := rdr.segment.Rewrite(offsets, l.params, mversion, iversion)")]),
+ ("R37", "FindByOffset: > instead of >=", [("trim_offset.go", "			if msg.Offset >= before {", "			if msg.Offset > before {")]),
+ ("R37", "FindByAge: cut-off test dropped", [("trim_age.go", """			if msg.Time.After(before) {
+				break SEARCH
+			}
+
+			offsets[msg.Offset] = struct{}{}""", """			if msg.Time.IsZero() {
+				break SEARCH
+			}
+
+			offsets[msg.Offset] = struct{}{}""")]),
+ ("R37", "FindUpdates: tree keyed by a key prefix", [("compact_updates.go", "keyOffset.Insert(msg.Key, msg.Offset)", "keyOffset.Insert(msg.Key[:min(len(msg.Key), 8)], msg.Offset)")]),
+ ("R37", "FindUpdates: newer messages enter the tree", [("compact_updates.go", """			if msg.Time.After(before) {
+				break SEARCH
+			}
+
+			if prevMsgOffset, ok := keyOffset.Insert(msg.Key, msg.Offset); ok {
+				offsets[prevMsgOffset.(int64)] = struct{}{}
+			}""", """			if msg.Time.IsZero() {
+				break SEARCH
+			}
+
+			if prevMsgOffset, ok := keyOffset.Insert(msg.Key, msg.Offset); ok && !msg.Time.After(before) {
+				offsets[prevMsgOffset.(int64)] = struct{}{}
+			}""")]),
+ ("R37", "FindDeletes: seen-before test dropped", [("compact_deletes.go", """			if _, ok := keyOffset.Search(msg.Key); ok {
+				continue
+			}
+""", "")]),
+ ("R37", "FindDeletes: value test dropped", [("compact_deletes.go", """			if msg.Value == nil {
+				offsets[msg.Offset] = struct{}{}
+			}""", """			offsets[msg.Offset] = struct{}{}""")]),
+ ("R37", "FindByCount: cursor skips one offset per batch", [("trim_count.go", "		offset = nextOffset\n", "		offset = nextOffset + 1\n")]),
+ ("R38", "TrimByOffset ignores the finder's error", [("trim_offset.go", """func TrimByOffset(ctx context.Context, l Log, before int64) ([]Message, int64, error) {
+	offsets, err := FindByOffset(ctx, l, before)
+	if err != nil {
+		return nil, 0, err
+	}
+	return l.Delete(offsets)""", """func TrimByOffset(ctx context.Context, l Log, before int64) ([]Message, int64, error) {
+	offsets, _ := FindByOffset(ctx, l, before)
+	return l.Delete(offsets)""")]),
+ ("R38", "TrimBySize also drops the message after the selection", [("trim_size.go", """func TrimBySize(ctx context.Context, l Log, sz int64) ([]Message, int64, error) {
+	offsets, err := FindBySize(ctx, l, sz)
+	if err != nil {
+		return nil, 0, err
+	}""", """func TrimBySize(ctx context.Context, l Log, sz int64) ([]Message, int64, error) {
+	offsets, err := FindBySize(ctx, l, sz)
+	if err != nil {
+		return nil, 0, err
+	}
+	offsets[int64(len(offsets))] = struct{}{}""")]),
+ ("R38", "DeleteMulti widens the set", [("delete.go", """		for _, msg := range deleted {
+			delete(remainingOffsets, msg.Offset)
+		}
+""", """		for _, msg := range deleted {
+			delete(remainingOffsets, msg.Offset)
+			remainingOffsets[msg.Offset+1] = struct{}{}
+		}
+""")]),
 ]
 
 def main():
